@@ -15,6 +15,16 @@ def run(ctx):
     out = ctx.sub("traces")
     cuts = "whole,rand1x3" if ctx.quick else "whole,rand3x6,bounds"
     traces, ncases = h1common.run_h1srv(ctx, drv, cases, out, cuts=cuts)
+    # option ContinueHandler refusing the body of every Expect: 100-continue request (the handler runs without the body;
+    # the server must then skip the body or close: the refused body must never be parsed as the next request)
+    deny_cases = os.path.join(ctx.scratch, "expect.ndjson")
+    with open(cases) as f, open(deny_cases, "w") as g:
+        for line in f:
+            if '"expect100":true' in line:
+                g.write(line)
+    td, nd = h1common.run_h1srv(ctx, drv, deny_cases, ctx.sub("traces_deny"), idle="inloop", cuts="whole,rand1x3", extra=["-deny"])
+    traces += td
+    ncases += nd
     # the same scripts over loopback TCP into a real server.Hertz with the real transports (fragmentation not controllable)
     nets = ["netpoll"] if ctx.quick else ["netpoll", "standard"]
     ntcp = 0
